@@ -965,7 +965,36 @@ type ifaceImpl struct {
 func (e *enc) ifaceContracts() []ifaceImpl { return e.ifaceContractsOf(e.f) }
 
 func (e *enc) ifaceContractsOf(f *ssa.Function) []ifaceImpl {
-	if f.Signature.Recv() == nil || len(e.w.CS.Ifaces) == 0 {
+	if f.Signature.Recv() == nil {
+		// contracts of named function types: every function of the package with that signature
+		var res []ifaceImpl
+		if f.Pkg == nil || f.Parent() != nil {
+			return nil
+		}
+		var keys []string
+		for k := range e.w.CS.FuncTypes {
+			keys = append(keys, k)
+		}
+		sort.Strings(keys)
+		for _, k := range keys {
+			fc := e.w.CS.FuncTypes[k]
+			parts := strings.SplitN(k, ".", 2)
+			if parts[0] != f.Pkg.Pkg.Name() {
+				continue
+			}
+			tn, ok := f.Pkg.Pkg.Scope().Lookup(parts[1]).(*types.TypeName)
+			if !ok {
+				continue
+			}
+			sig, ok := tn.Type().Underlying().(*types.Signature)
+			if !ok || !types.Identical(sig, f.Signature) {
+				continue
+			}
+			res = append(res, ifaceImpl{"functype:" + k, fc, tn, sig})
+		}
+		return res
+	}
+	if len(e.w.CS.Ifaces) == 0 {
 		return nil
 	}
 	rt := f.Signature.Recv().Type()
@@ -1005,6 +1034,12 @@ func (e *enc) ifaceContractsOf(f *ssa.Function) []ifaceImpl {
 func (e *enc) ifaceEnv(ii ifaceImpl, env *cenv) {
 	f := e.f
 	env.pkg = ii.fc.Pkg
+	if strings.HasPrefix(ii.key, "functype:") {
+		for i, p := range f.Params {
+			env.vars[fmt.Sprintf("arg%d", i)] = cval{e.val(p), e.sortOf(p.Type()), p.Type()}
+		}
+		return
+	}
 	env.vars["this"] = cval{e.mkIface(e.val(f.Params[0]), f.Params[0].Type()), "Iface", ii.tn.Type()}
 	for i := 0; i < ii.sig.Params().Len() && i+1 < len(f.Params); i++ {
 		cv := cval{e.val(f.Params[i+1]), e.sortOf(f.Params[i+1].Type()), f.Params[i+1].Type()}
